@@ -195,6 +195,16 @@ def _variants():
                     [N("participant", {"jid": J2, "type": "admin"})])])])))
     V.append(("protocol_ib:offline_ib.OfflineIbProtocolEntity#from", "protocol_ib:offline_ib.OfflineIbProtocolEntity",
               lambda: N("ib", {"from": "s.whatsapp.net"}, [N("offline", {"count": "5"})])))
+    # an encrypted message with several ciphertext children (a group message to a member without a session yet: the pairwise part carrying the
+    # sender key, then the group part): each child has its own attributes — a media type on one says nothing about the other
+    EM = "axolotl:message_encrypted.EncryptedMessageProtocolEntity"
+    GJ = "4915112345678-1418906000@g.us"
+    V.append((EM + "#pk-then-sk-media", EM, lambda: N("message", {"from": GJ, "participant": J1, "t": "1418906418", "type": "media", "id": "1418906377-2", "notify": "Someone"},
+              [N("enc", {"type": "pkmsg", "v": "2"}, data=b"\x33\x08\x01\x12\x21\x05abcdef"), N("enc", {"type": "skmsg", "v": "2", "mediatype": "image"}, data=b"\x33\x08\x02skdata")])))
+    V.append((EM + "#media-then-plain", EM, lambda: N("message", {"from": GJ, "participant": J1, "t": "1418906418", "type": "media", "id": "1418906377-3", "notify": "Someone"},
+              [N("enc", {"type": "msg", "v": "2", "mediatype": "video"}, data=b"\x33\x0a\x21\x05abc"), N("enc", {"type": "skmsg", "v": "2"}, data=b"\x33\x08\x02skdata")])))
+    V.append((EM + "#two-media-types", EM, lambda: N("message", {"from": J1, "t": "1418906418", "type": "media", "id": "1418906377-4", "notify": "Someone"},
+              [N("enc", {"type": "pkmsg", "v": "2", "mediatype": "audio"}, data=b"\x33\x08\x01\x12\x21\x05abcdef"), N("enc", {"type": "msg", "v": "2", "mediatype": "image"}, data=b"\x33\x0a\x21\x05abc")])))
     return [v for v in V if v[2] is not None]
 
 
